@@ -437,17 +437,6 @@ class SlotNode(BaseNode):
             )
             parent_index = get_last_index(context.dicts[:curr_index], lambda d: _COMPONENT_CONTEXT_KEY in d)
 
-            # NOTE: There's an edge case when our component `hui3q2` appears at the start of the stack:
-            # hui3q2 -> ax3c89 -> ... -> hui3q2
-            #
-            # Looking left finds nothing. In this case, look for the first component layer to the right.
-            if parent_index is None and curr_index + 1 < len(context.dicts):
-                parent_index = get_index(
-                    context.dicts[curr_index + 1 :], lambda d: _COMPONENT_CONTEXT_KEY in d  # noqa: E203
-                )
-                if parent_index is not None:
-                    parent_index = parent_index + curr_index + 1
-
             trace_component_msg(
                 "SLOT_PARENT_INDEX",
                 component_name=component_ctx.component_name,
